@@ -27,7 +27,7 @@ from pipefunc import PipeFunc, Pipeline
 from pipefunc.typing import Array, ArrayElementType, NoAnnotation, is_type_compatible
 
 PID = "C16"
-PROPS = ["PfModel.Props.C16"]
+PROPS = ["PfModel.Props.C16", "PfModel.Props.C16Pipe", "PfModel.Props.C16Sem"]
 DRIVER = "C16"
 RULE = ("annotations are real typing objects built from a JSON grammar (int,bool,float,str,bytes,None,Any,missing,object ndarray, "
         "list/set/tuple/dict[...], Union/Optional, Annotated[T, meta] with class or string metadata, unions spelled Union[...] or X | Y, Array[T], free/bounded/constrained "
@@ -35,12 +35,25 @@ RULE = ("annotations are real typing objects built from a JSON grammar (int,bool
         "universe, sampled/exhaustive pairs of a depth-2 universe, and depth<=3 related pairs (b derived from a by widening, narrowing, "
         "perturbing a subterm, or independent); pipelines: 2-3 functions over 12 MapSpec wirings with related edge types, validation on "
         "and off. A pair is non-trivial when neither side is Any/missing/a TypeVar at top level and the two differ; a pipeline when it "
-        "has an edge that is actually checked; distinct by the case's JSON")
+        "has an edge that is actually checked; distinct by the case's JSON. Extension: description-level pipelines (harness/c16_desc.py: 2-4 "
+        "callables of 10 flavours built from generated source text, tuple outputs with tuple[...] / too short / too long / variadic / "
+        "non-tuple / missing / unresolvable return hints, renames, scopes, bound parameters, defaults, quoted and __future__ annotations, "
+        "MapSpecs; non-trivial when an explicitly annotated, non-exempt edge relates two different annotations) and annotations outside the "
+        "grammar (harness/c16_exotic.py: all ordered pairs over a fixed list of Literal / Callable / type[...] / NDArray / abc generics / "
+        "variadic tuples / bare aliases / user generics; not modelled, counted under exotic:not-modelled)")
 ASSUMPTIONS = ["Python's `==` on typing objects (used by the shortcut typing.py:88) is structural equality up to the order of union members; "
                "the model has no such shortcut and proves reflexivity of the remaining dispatch instead",
                "Annotated carries exactly one metadata item (is_object_array_type unpacks exactly two arguments); variadic tuples, bare "
                "generics, Literal, Callable and user classes are outside the generated grammar",
-               "TypeVar bounds and constraints are TypeVar-free annotations of depth <= 1",
+               "TypeVar bounds and constraints are TypeVar-free annotations of depth <= 2",
+               "description-level pipelines: the MapSpecs in the description are read from the constructed pipeline (MapSpec auto-generation "
+               "is not modelled); the hints of each callable are predicted from the generated source (checked against parameter_annotations / "
+               "output_annotation of the real PipeFunc); the loop's comparisons are observed by wrapping the module global "
+               "pipefunc._pipeline._validation.is_type_compatible; Pipeline.add validates after every function, the last run of the loop is the "
+               "one observed",
+               "annotations outside the grammar (Literal, Callable, type[...], NDArray, abc generics, variadic tuples, user generics) are not "
+               "modelled: only totality (a bool, no exception), reflexivity, Any / missing, union introduction / elimination and acceptance of "
+               "an edge with identical annotations are demanded of them",
                "the MapSpec structure sent to the model is the case's own (the harness checks that pipefunc parsed/generated the same "
                "names, axes and _is_generated flags)"]
 
@@ -51,6 +64,36 @@ GENS = {"list": list, "set": set, "tuple": tuple, "dict": dict}
 
 class Meta:
     """metadata object for plain Annotated"""
+
+
+class UserA:
+    """a user-defined class of the grammar ("A")"""
+
+
+class UserB(UserA):
+    """a subclass of `UserA` ("B")"""
+
+
+BASES.update({"A": UserA, "B": UserB})
+_CLS_BACK: dict[int, tuple[str, Any]] = {}      # per-case classes of the description-level pipelines (harness/c16_desc.py)
+
+
+def register_classes(a, b):
+    if len(_CLS_BACK) > 4000:
+        _CLS_BACK.clear()
+    _CLS_BACK[id(a)] = ("A", a)
+    _CLS_BACK[id(b)] = ("B", b)
+
+
+def mentions(t, names):
+    """does the JSON annotation mention one of the leaf names / constructor keys `names`"""
+    if t is None:
+        return False
+    if isinstance(t, str):
+        return t in names
+    if isinstance(t, list):
+        return any(mentions(x, names) for x in t)
+    return any(k in names for k in t) or any(mentions(x, names) for v in t.values() for x in (v if isinstance(v, list) else [v]))
 
 
 # ------------------------------------------------------------------------------------------------ JSON <-> typing objects
@@ -129,6 +172,10 @@ def from_py(o):
     for n, c in BASES.items():
         if o is c:
             return n
+    if o is None:                                   # a raw `None` inside a string annotation (`'list[None]'`)
+        return "None"
+    if id(o) in _CLS_BACK and _CLS_BACK[id(o)][1] is o:
+        return _CLS_BACK[id(o)][0]
     if o is Any:
         return "Any"
     if o is NoAnnotation:
@@ -146,8 +193,6 @@ def from_py(o):
     if origin is Annotated:
         primary, *md = args
         el = [typing.get_args(m)[0] for m in md if typing.get_origin(m) is ArrayElementType]
-        if len(md) != 1:
-            raise Unsupported("Annotated with several metadata")
         if el:
             if primary != NDARR:
                 raise Unsupported("ArrayElementType on a non-ndarray primary")
@@ -201,7 +246,7 @@ def sub_ref(a, b) -> bool:
     if a == "Any":
         return False
     if isinstance(a, str) and isinstance(b, str):
-        return a == b or (a, b) == ("bool", "int")
+        return a == b or (a, b) in (("bool", "int"), ("B", "A"))
     if isinstance(a, dict) and isinstance(b, dict):
         if "g" in a and "g" in b:
             if a["g"] != b["g"]:
@@ -228,8 +273,8 @@ def atoms(t):
 
 
 # ------------------------------------------------------------------------------------------------ generators
-LEAVES = ["int", "bool", "float", "str", "bytes", "None", "Any", "NoAnn", "T", "ndarray"]
-COMMON = ["int", "bool", "float", "str", "bytes", "None", "Any"]
+LEAVES = ["int", "bool", "float", "str", "bytes", "None", "Any", "NoAnn", "T", "ndarray", "A", "B"]
+COMMON = ["int", "bool", "float", "str", "bytes", "None", "Any", "A", "B"]
 
 
 def kind(t):
@@ -384,6 +429,8 @@ def widen1(rng, t):
         return {"u": ms}
     if t == "bool":
         return "int"
+    if t == "B":
+        return "A"
     if kind(t) == "arr" and r < 0.8:
         return "ndarray"
     return t
@@ -394,6 +441,8 @@ def narrow1(rng, t):
     r = rng.random()
     if t == "int" and r < 0.6:
         return "bool"
+    if t == "A" and r < 0.6:
+        return "B"
     if kind(t) == "u":
         ms = list(t["u"])
         if r < 0.5:
@@ -464,13 +513,13 @@ def gen_pair(rng):
 
 def universe1():
     """all annotations of depth <= 1 over a fixed menu"""
-    b = ["int", "bool", "float", "str", "None"]
+    b = ["int", "bool", "float", "str", "None", "A", "B"]
     out = list(LEAVES)
     for t in b + ["Any", "NoAnn", "T"]:
         out += [{"g": "list", "a": [t]}, {"g": "set", "a": [t]}, {"an": t}, {"arr": t}, {"g": "tuple", "a": [t]}]
     for t in b[:4]:
         out += [{"tvb": t}]
-    for t, u in itertools.product(["int", "bool", "str", "None"], repeat=2):
+    for t, u in itertools.product(["int", "bool", "str", "None", "A", "B"], repeat=2):
         out += [{"g": "tuple", "a": [t, u]}, {"g": "dict", "a": [t, u]}]
         if t < u:
             out += [{"u": [t, u]}, {"tvc": [t, u]}]
@@ -867,10 +916,20 @@ def pipe_corpus():
 
 
 # ------------------------------------------------------------------------------------------------ run
+import sys  # noqa: E402
+
+import c16_desc  # noqa: E402
+import c16_exotic  # noqa: E402
+
+c16_desc.B = c16_exotic.B = sys.modules[__name__]
+
+
 def run(ctx):
     rng = ctx.rng
     check_pairs(ctx, [copy.deepcopy(c) for c in CORPUS])
     check_pipes(ctx, pipe_corpus())
+    c16_desc.check_descs(ctx, c16_desc.fix_corpus(c16_desc.corpus()))
+    c16_exotic.run(ctx)          # spellings, annotations outside the grammar (not modelled: counted), TypeVars over depth-2 generics
     # 1. exhaustive depth <= 1
     u1 = universe1()
     ctx.extra["universe1"] = len(u1)
@@ -881,23 +940,35 @@ def run(ctx):
     if ctx.tier == "thorough":
         pairs2 = [{"kind": "pair", "a": a, "b": b, "src": "universe2"} for a in u2 for b in u2]
     else:
-        pairs2 = [{"kind": "pair", "a": rng.choice(u2), "b": rng.choice(u2), "src": "universe2"} for _ in range(ctx.n(15000, 0))]
+        pairs2 = [{"kind": "pair", "a": rng.choice(u2), "b": rng.choice(u2), "src": "universe2"} for _ in range(ctx.n(9000, 0))]
     for k in range(0, len(pairs2), 50000):
         check_pairs(ctx, pairs2[k:k + 50000], laws_every=23 if ctx.tier == "thorough" else 11)
     # 3. depth <= 3 related pairs; one in eight with string metadata in Annotated, one in eight spelling unions `X | Y`
     rel = []
-    for _ in range(ctx.n(9000, 150000)):
+    for _ in range(ctx.n(7000, 150000)):
         a, b, src = gen_pair(rng)
         rel.append({"kind": "pair", "a": a, "b": b, "src": src, "meta": rng.choice(["class"] * 6 + ["str", "pipe"])})
     for k in range(0, len(rel), 50000):
         check_pairs(ctx, rel[k:k + 50000], laws_every=3)
     # 4. pipelines
-    pipes = [gen_pipe(rng) for _ in range(ctx.n(1500, 30000))]
+    pipes = [gen_pipe(rng) for _ in range(ctx.n(1000, 30000))]
     for k in range(0, len(pipes), 5000):
         check_pipes(ctx, pipes[k:k + 5000])
+    # 5. description-level pipelines: flavours of callables, tuple outputs, renames, scopes, bound, unresolvable hints
+    descs = [c16_desc.gen_desc(rng) for _ in range(ctx.n(1000, 16000))]
+    for k in range(0, len(descs), 500):
+        check_descs_batch(ctx, descs[k:k + 500])
+
+
+def check_descs_batch(ctx, cases):
+    c16_desc.check_descs(ctx, cases)
 
 
 def replay(ctx, case):
+    if case.get("kind") == "desc":
+        return c16_desc.replay(ctx, case)
+    if case.get("kind") in ("exotic-pair", "exotic-pipe", "spelling"):
+        return c16_exotic.replay(ctx, case)
     if case.get("kind") == "pipe":
         medges = model_edges(case)
         on, off, seen = run_pipe(case)
